@@ -17,7 +17,7 @@ RULE = ('cases: function arrays built from 1-4 arguments (scalars, vectors, matr
 ASSUMPTIONS = ['numpy interpretation of the generated expression tree is the meaning of f', 'finite differences of polynomials/smooth functions with 6-point stencils are accurate to 1e-7 relative']
 
 V = [-1.5, -1., -.5, .5, 1., 1.5, 2., .25]
-SHAPES = [[], [2], [3], [2, 2]]
+SHAPES = [[], [2], [3], [2, 2], [2, 3], [2, 1, 3], [3, 2, 2]]
 
 
 @st.composite
@@ -131,7 +131,7 @@ def cases(draw, tier):
             k = int(numpy.prod(args[n]['shape'])) if args[n]['shape'] else 1
             repl.append([n, dict(kind='const', value=[draw(st.sampled_from(V)) for _ in range(k)])])
     return dict(args=args, f=f, repl=repl, spelling=draw(st.sampled_from(['dict', 'string', 'strings', 'pairs', 'argkeys', 'argvalues', 'mixed'])), integral=draw(st.integers(0, 3)) == 0,
-                direction=[draw(st.sampled_from(V)) for _ in range(9)], wrt=draw(st.sampled_from(names)), bad=draw(st.sampled_from(['leading-axis', 'scalar', 'length1', 'transposed', 'dtype-complex', 'dtype-float-for-int', 'repl-shape'])))
+                direction=[draw(st.sampled_from(V)) for _ in range(12)], wrt=draw(st.sampled_from(names)), bad=draw(st.sampled_from(['leading-axis', 'scalar', 'length1', 'transposed', 'dtype-complex', 'dtype-float-for-int', 'repl-shape'])))
 
 
 def arr(a):
@@ -252,6 +252,21 @@ def check(case, rec):
             if got_f.shape != want.shape or abs(got_f - want).max() > 1e-9 * (1 + abs(want).max()):
                 raise Violation('factor', f'factor(f)(A) = {got_f.tolist()} != f(A) = {want.tolist()} (f={_show(case["f"])})', where='factor')
             rec.label('factor-checked')
+            # factor(f) equals f as a function of the arguments, so its derivatives are those of f (checked against finite differences above)
+            if wrt in target.arguments:
+                d = numpy.array(case['direction'][:max(1, int(numpy.prod(args[wrt]['shape'])))], dtype=float).reshape(args[wrt]['shape'])
+                try:
+                    l_fac = numpy.asarray(function.eval(function.linearize(fac, f'{wrt}:d{wrt}'), arguments={**A, 'd' + wrt: d}))
+                    d_fac = numpy.asarray(function.eval(function.derivative(fac, wrt), arguments=A))
+                except Exception as e:
+                    raise Violation('factor-raised', f'derivative of factor(f): {type(e).__name__}: {str(e)[:300]} for f={_show(case["f"])}', where='factor-derivative:' + type(e).__name__)
+                l_ref = numpy.asarray(function.eval(function.linearize(target, f'{wrt}:d{wrt}'), arguments={**A, 'd' + wrt: d}))
+                d_ref = numpy.asarray(function.eval(function.derivative(target, wrt), arguments=A))
+                if l_fac.shape != l_ref.shape or abs(l_fac - l_ref).max() > 1e-9 * (1 + abs(l_ref).max()):
+                    raise Violation('factor-derivative', f'linearize(factor(f), {wrt}) = {l_fac.tolist()} != linearize(f, {wrt}) = {l_ref.tolist()} (f={_show(case["f"])}, argument shape {args[wrt]["shape"]})', where='factor-linearize')
+                if d_fac.shape != d_ref.shape or abs(d_fac - d_ref).max() > 1e-9 * (1 + abs(d_ref).max()):
+                    raise Violation('factor-derivative', f'derivative(factor(f), {wrt}) differs from derivative(f, {wrt}) by {abs(d_fac - d_ref).max():.3e} (f={_show(case["f"])}, argument shape {args[wrt]["shape"]})', where='factor-derivative')
+                rec.label('factor-derivative-checked', 'factor-derivative-argdim=%d' % len(args[wrt]['shape']))
         # 4. rejection of wrong shapes / dtypes
         if used:
             n = used[0]; v = A[n]
